@@ -551,16 +551,18 @@ func TestLockHistories(t *testing.T) {
 	})
 }
 
-// ---- a freshly acquired lock whose first heart-beat is slow to appear -------------------------------------------------
+// ---- a live holder whose heart-beats are slow to be written --------------------------------------------------------------
 
-// FreshCase: the holder acquires; the creation of its first heart-beat file is held up for DelayMs (a loaded disk; less
-// than a period, so the heart-beat "keeps running" in the sense of the property); meanwhile contenders try to take the
-// lock over, to release it as stale, or ask whether it is stale.
+// FreshCase: the holder acquires; the creation of its first heart-beat file (or, with EveryBeat, of every heart-beat)
+// is held up for DelayMs (a loaded disk; well below a period, so the heart-beat "keeps running" in the sense of the
+// property); meanwhile contenders try to take the lock over, to release it as stale, or ask whether it is stale.
 type FreshCase struct {
 	Backend    string   `json:"backend"`
 	Acquire    string   `json:"acquire"` // trylock | lock | lockwithtimeout
 	DelayMs    int      `json:"first_heartbeat_delay_ms"`
-	Contenders []string `json:"contenders"` // trylock-override | releaseifstale | isstale | lock-override
+	EveryBeat  bool     `json:"every_heartbeat_delayed,omitempty"`
+	HoldMs     int      `json:"hold_ms,omitempty"` // how long the contenders keep trying (default: 85 ms, the fresh-lock window)
+	Contenders []string `json:"contenders"`        // trylock-override | releaseifstale | isstale | lock-override
 	CadenceMs  int      `json:"cadence_ms"`
 }
 
@@ -572,9 +574,30 @@ func checkFresh(t ev.T, test string, c FreshCase) {
 	lockDir := filepath.Join(dir, filesystem.LockFilePrefix+"-"+lockID)
 	var delayed atomic.Bool
 	box.Backend.Before = func(op *fsx.Op) {
-		if op.Client == "holder" && op.Kind == "openfile" && strings.HasPrefix(op.Path, lockDir+string(filepath.Separator)) && delayed.CompareAndSwap(false, true) {
+		if op.Client == "holder" && op.Kind == "openfile" && strings.HasPrefix(op.Path, lockDir+string(filepath.Separator)) && (c.EveryBeat || delayed.CompareAndSwap(false, true)) {
 			time.Sleep(time.Duration(c.DelayMs) * time.Millisecond)
 		}
+	}
+	// signs of life of the holder: completion of the time stamp of the lock directory (acquisition) and of each heart-beat
+	var smu sync.Mutex
+	var signs []time.Time
+	box.Backend.After = func(op *fsx.Op) {
+		if op.Client == "holder" && op.Kind == "chtimes" && op.Err == "" && strings.HasPrefix(op.Path, lockDir) {
+			smu.Lock()
+			signs = append(signs, time.Unix(0, op.End))
+			smu.Unlock()
+		}
+	}
+	lastSignBefore := func(x time.Time, fallback time.Time) time.Time {
+		smu.Lock()
+		defer smu.Unlock()
+		r := fallback
+		for _, s := range signs {
+			if !s.After(x) && s.After(r) {
+				r = s
+			}
+		}
+		return r
 	}
 	_, hfs := box.NewClient("holder")
 	holder := filesystem.NewGenericRemoteLockFile(hfs.(*filesystem.VFS), lockID, dir, false)
@@ -593,10 +616,16 @@ func checkFresh(t ev.T, test string, c FreshCase) {
 	if herr != nil {
 		ev.Fail(t, prop, test, c, "the holder could not acquire a free lock: %v", herr)
 	}
-	// two periods are 100 ms: a verdict returned when the lock was (at most) 85 ms old cannot be a legitimate one
+	// two periods are 100 ms: a verdict returned when the newest sign of life completed before the call began was (at most)
+	// 85 ms old cannot be a legitimate one
 	const limit = 85 * time.Millisecond
+	hold := limit
+	if c.HoldMs > 0 {
+		hold = time.Duration(c.HoldMs) * time.Millisecond
+	}
 	var mu sync.Mutex
 	var finding string
+	late := 0
 	var wg sync.WaitGroup
 	stop := make(chan struct{})
 	for i, kind := range c.Contenders {
@@ -613,6 +642,7 @@ func checkFresh(t ev.T, test string, c FreshCase) {
 				case <-time.After(time.Duration(c.CadenceMs) * time.Millisecond):
 				}
 				what := ""
+				began := time.Now()
 				octx, ocancel := context.WithTimeout(context.Background(), 20*time.Millisecond)
 				switch kind {
 				case "isstale":
@@ -634,21 +664,23 @@ func checkFresh(t ev.T, test string, c FreshCase) {
 					}
 				}
 				ocancel()
-				age := time.Since(t0)
 				if what != "" {
+					age := time.Since(lastSignBefore(began, t0))
+					mu.Lock()
 					if age <= limit {
-						mu.Lock()
 						if finding == "" {
-							finding = fmt.Sprintf("%s: %s at most %v after the holder acquired (its first heart-beat file is held up for %d ms; two periods = 100ms)", name, what, age.Round(time.Millisecond), c.DelayMs)
+							finding = fmt.Sprintf("%s: %s although the holder's newest sign of life (completed before that call began) was at most %v old when the call returned (heart-beat files held up for %d ms; two periods = 100ms)", name, what, age.Round(time.Millisecond), c.DelayMs)
 						}
-						mu.Unlock()
+					} else {
+						late++
 					}
+					mu.Unlock()
 					return
 				}
 			}
 		}(kind, name)
 	}
-	time.Sleep(time.Until(t0.Add(limit)))
+	time.Sleep(time.Until(t0.Add(hold)))
 	close(stop)
 	wg.Wait()
 	mu.Lock()
@@ -656,6 +688,9 @@ func checkFresh(t ev.T, test string, c FreshCase) {
 	mu.Unlock()
 	if f != "" {
 		ev.Fail(t, prop, test, c, "%s; the holder is alive and has not begun to release", f)
+	}
+	if late > 0 {
+		ev.Class("stale verdict on a holder whose signs of life were more than 85 ms apart (machine load; not judged)")
 	}
 	uctx, ucancel := context.WithTimeout(context.Background(), 3*time.Second)
 	_ = holder.Unlock(uctx)
@@ -669,8 +704,14 @@ func TestFreshLock(t *testing.T) {
 		c.DelayMs = rapid.SampledFrom([]int{0, 5, 15, 25, 35, 45, 60, 80}).Draw(rt, "delay")
 		c.CadenceMs = rapid.IntRange(1, 9).Draw(rt, "cadence")
 		c.Contenders = rapid.SliceOfN(rapid.SampledFrom([]string{"trylock-override", "trylock-override", "releaseifstale", "isstale", "lock-override"}), 1, 3).Draw(rt, "contenders")
+		cls := "fresh-lock/"
+		if rapid.IntRange(0, 2).Draw(rt, "slow-disk") == 0 {
+			// every heart-beat write is slow (but far from a period): the holder stays alive for several periods
+			c.EveryBeat, c.DelayMs, c.HoldMs = true, rapid.SampledFrom([]int{10, 20, 30}).Draw(rt, "beat-delay"), rapid.SampledFrom([]int{250, 400}).Draw(rt, "hold")
+			cls = "slow-heart-beats/"
+		}
 		k, _ := json.Marshal(c)
-		ev.Case(string(k), c.DelayMs >= 15, "fresh-lock/"+c.Backend, c)
+		ev.Case(string(k), c.DelayMs >= 15, cls+c.Backend, c)
 		checkFresh(rt, "TestFreshLock", c)
 	})
 }
